@@ -548,7 +548,12 @@ class CSSSerializer:
                 elif 'media' == type_:
                     # media
                     mediaText = self.do_stylesheets_medialist(val)
-                    if mediaText and mediaText != 'all':
+                    if [mq.mediaText for mq in val] == ['all']:
+                        # "all" is not written, comments next to it are
+                        for mediaitem in val.seq:
+                            if mediaitem.type != 'MediaQuery':
+                                out.append(mediaitem.value, mediaitem.type)
+                    elif mediaText and mediaText != 'all':
                         out.append(mediaText)
                 elif 'name' == type_:
                     out.append(val, 'STRING')
